@@ -1,3 +1,84 @@
 //! Kani harnesses for the collector (C03). See also `unmanaged.inject.rs`,
 //! which the overlay appends to `gc/mod.rs`.
 use super::*;
+
+// ---------------------------------------------------------------------------------------------------
+// C03-H1: exactness of the real collector on a symbolic two-node heap (second attempt, with the larger
+// field-sensitivity limit of build phase 2)
+// ---------------------------------------------------------------------------------------------------
+
+/// A heap node with two optional outgoing edges.
+struct Node {
+    edges: RefCell<[Option<Gc<Node>>; 2]>,
+}
+
+impl GcTrace for Node {
+    fn trace<'a>(&self, ctx: &mut impl GcTraceCtx<'a>)
+    where
+        Self: 'a,
+    {
+        let e = self.edges.borrow();
+        if let Some(x) = &e[0] {
+            ctx.visit_obj(x);
+        }
+        if let Some(x) = &e[1] {
+            ctx.visit_obj(x);
+        }
+    }
+}
+
+// @harness id=c03_gc_two_nodes props=C03 tier=attempt cap=2700 mem=40
+// @desc the REAL GcContext (alloc_view, gc, num_objects) on a heap of two nodes with ANY of the four possible edges (self loops and the 2-cycle included) and ANY choice of which nodes are still held by the program (a GcView = root): after gc() exactly the nodes reachable from a held node survive (unreachable cycles are reclaimed, nothing reachable is), the held nodes are still usable, and a second gc() changes nothing
+// @bound 2 nodes, 4 symbolic edges, 2 symbolic roots
+// @funcs GcContext::alloc_view, GcContext::gc, GcContext::num_objects, Gc::view, GcCountCtx::visit_obj, GcMarkCtx::visit_obj
+#[kani::proof]
+#[kani::unwind(5)]
+fn c03_gc_two_nodes() {
+    let ctx = GcContext::new();
+    let n0 = ctx.alloc_view(Node { edges: RefCell::new([None, None]) });
+    let n1 = ctx.alloc_view(Node { edges: RefCell::new([None, None]) });
+    let e00: bool = kani::any();
+    let e01: bool = kani::any();
+    let e10: bool = kani::any();
+    let e11: bool = kani::any();
+    if e00 {
+        n0.edges.borrow_mut()[0] = Some(Gc::from(&n0));
+    }
+    if e01 {
+        n0.edges.borrow_mut()[1] = Some(Gc::from(&n1));
+    }
+    if e10 {
+        n1.edges.borrow_mut()[0] = Some(Gc::from(&n0));
+    }
+    if e11 {
+        n1.edges.borrow_mut()[1] = Some(Gc::from(&n1));
+    }
+    let keep0: bool = kani::any();
+    let keep1: bool = kani::any();
+    // weak handles to observe survival without keeping the nodes alive
+    let w0 = Gc::from(&n0);
+    let w1 = Gc::from(&n1);
+    if !keep0 {
+        drop(n0);
+    } else {
+        core::mem::forget(n0);
+    }
+    if !keep1 {
+        drop(n1);
+    } else {
+        core::mem::forget(n1);
+    }
+    ctx.gc();
+    let live0 = keep0 || (keep1 && e10);
+    let live1 = keep1 || (keep0 && e01);
+    let expect = live0 as usize + live1 as usize;
+    assert!(ctx.num_objects() == expect, "exactly the reachable nodes survive");
+    assert!(w0.inner.upgrade().is_some() == live0, "node 0 survives iff reachable");
+    assert!(w1.inner.upgrade().is_some() == live1, "node 1 survives iff reachable");
+    ctx.gc();
+    assert!(ctx.num_objects() == expect, "a second collection changes nothing");
+    kani::cover!(!keep0 && !keep1 && e01 && e10, "unreachable 2-cycle reclaimed");
+    kani::cover!(keep0 && e01 && !keep1, "node reachable only through an edge survives");
+    core::mem::forget((w0, w1));
+    core::mem::forget(ctx);
+}
